@@ -15,6 +15,9 @@ def conds(tier):
                     family="F-TREE(3,2,2)", encodes=core.ENC_SCHED))
     out.append(Cond("steps", core.mk_steps(P, 2, 3, 2, 2), core.steps_params(2, 3, 2, 2), pin=3, budget=200,
                     family="F-STEPS(2,3,2)", encodes=core.ENC_SCHED))
+    out.append(core.seq_cond("seq", P, 3, 2))
+    out.append(core.shape_cond("shape", P, [4, 5, 6, 7, 13, 15] if q else list(range(20)), fam.OK_MENU, 3 if q else 4,
+                               budget=200 if q else 900, slim=q))
     out.append(Cond("dag", core.mk_dag(P), core.DAG_PARAMS, pin=3, budget=120, family="F-DAG",
                     encodes=core.ENC_SCHED))
     out.append(core.fault_cond("fault", P, [4], g0modes=3, g1modes=3, pin=4, budget=200))
